@@ -53,6 +53,13 @@ def family():
         if q and "/mm/" not in label and "/fb/" not in label and "/bf/" not in label:
             continue
         yield label, prog, dict(kind="single", horizon=8)
+    if not q:
+        for label, prog, meta in F.fam_cond_aux_two():
+            yield label, prog, dict(kind="env")
+        for label, prog, meta in F.fam_clocks_deep():
+            yield label, prog, dict(kind="single", horizon=40)
+        for label, prog, meta in F.fam_markers_deep():
+            yield label, prog, dict(kind="markers-deep")
     for label, prog, meta in F.fam_restart():
         yield label, prog, dict(kind="env", depth=10)
     for label, prog, meta in F.fam_clone_markers():
@@ -103,6 +110,10 @@ def on_prog(p, idx, label, prog, meta):
     if kind == "pairs":
         runner.explore_and_check(p, idx, label, prog, cmp=cmp, watch=("v", "c"), canon_paths={"v", "c"}, value_caps={"c": 4},
                                  depth=8 if core.TIER == "quick" else 10, sample_every=1999)
+        return
+    if kind == "markers-deep":
+        runner.explore_and_check(p, idx, label, prog, cmp=cmp, alphabet=F.XE_ALPHABET, back_alphabet=[None, {"x": 1}],
+                                 watch=("x", "env.e0"), depth=8, sample_every=1999)
         return
     if kind == "markers":
         runner.explore_and_check(p, idx, label, prog, cmp=cmp, alphabet=F.X_ALPHABET, back_alphabet=F.X_ALPHABET, watch=("x",),
